@@ -1,6 +1,7 @@
 package main
 
 import (
+	"fmt"
 	"math"
 )
 
@@ -456,6 +457,153 @@ func randomNode(r *Rng, depth int) *W {
 
 // mutateTree applies one structural fault at a random node and returns a description.
 func mutateTree(r *Rng, root **W) string {
+	if r.Chance(1, 4) {
+		if desc, ok := mutateInProtected(r, *root); ok {
+			return desc
+		}
+	}
+	return mutateTreeShallow(r, root)
+}
+
+// protectedSlots: the bstr items that hold an encoded protected header map (first element of every
+// [bstr, map, ...] array at any depth, or the root itself when it is a bstr).
+func protectedSlots(root *W) []*W {
+	var out []*W
+	if root.Maj == 2 {
+		out = append(out, root)
+	}
+	var walk func(n *W)
+	walk = func(n *W) {
+		if n.Maj == 4 && len(n.Kids) >= 3 && n.Kids[0].Maj == 2 && n.Kids[1].Maj == 5 {
+			out = append(out, n.Kids[0])
+		}
+		for _, k := range n.Kids {
+			walk(k)
+		}
+	}
+	walk(root)
+	return out
+}
+
+// mutateInProtected applies a structural fault inside an encoded protected header map.
+func mutateInProtected(r *Rng, root *W) (string, bool) {
+	slots := protectedSlots(root)
+	if len(slots) == 0 {
+		return "", false
+	}
+	if r.Chance(1, 4) {
+		if desc, ok := ivSplit(r, root); ok {
+			return "in-protected/" + desc, true
+		}
+	}
+	p := slots[r.Intn(len(slots))]
+	inner, err := refParseFull(p.Str)
+	if err != nil || inner.Maj != 5 {
+		inner = wMap(-1)
+	}
+	var desc string
+	if r.Chance(1, 3) {
+		desc = critFault(r, inner)
+	} else {
+		desc = mutateTreeShallow(r, &inner)
+	}
+	p.Str = inner.Ser()
+	p.Width = pickW(uint64(len(p.Str)), p.Width)
+	return "in-protected/" + desc, true
+}
+
+// ivSplit puts IV into one bucket and Partial IV into the other bucket of one layer (both well-typed),
+// which RFC 9052 3.1 forbids although each bucket is valid alone.
+func ivSplit(r *Rng, root *W) (string, bool) {
+	var envs []*W
+	var walk func(n *W)
+	walk = func(n *W) {
+		if n.Maj == 4 && len(n.Kids) >= 3 && n.Kids[0].Maj == 2 && n.Kids[1].Maj == 5 {
+			envs = append(envs, n)
+		}
+		for _, k := range n.Kids {
+			walk(k)
+		}
+	}
+	walk(root)
+	if len(envs) == 0 {
+		return "", false
+	}
+	e := envs[r.Intn(len(envs))]
+	inner, err := refParseFull(e.Kids[0].Str)
+	if err != nil || inner.Maj != 5 {
+		inner = wMap(-1)
+	}
+	strip := func(m *W) {
+		var kv []*W
+		for i := 0; i+1 < len(m.Kids); i += 2 {
+			if k := m.Kids[i]; k.Maj == 0 && (k.Val == 5 || k.Val == 6) {
+				continue
+			}
+			kv = append(kv, m.Kids[i], m.Kids[i+1])
+		}
+		m.Kids = kv
+	}
+	strip(inner)
+	strip(e.Kids[1])
+	a, b := int64(5), int64(6)
+	if r.Bool() {
+		a, b = b, a
+	}
+	inner.Kids = append(inner.Kids, wInt(a, -1), wBstr(r.Bytes(1+r.Intn(8)), -1))
+	e.Kids[1].Kids = append(e.Kids[1].Kids, wInt(b, -1), wBstr(r.Bytes(1+r.Intn(8)), -1))
+	inner.Width = pickW(uint64(len(inner.Kids)/2), -1)
+	e.Kids[1].Width = pickW(uint64(len(e.Kids[1].Kids)/2), -1)
+	e.Kids[0].Str = inner.Ser()
+	e.Kids[0].Width = pickW(uint64(len(e.Kids[0].Str)), e.Kids[0].Width)
+	return fmt.Sprintf("iv-split-%d-protected", a), true
+}
+
+// critFault rewrites the crit parameter of a protected map: a list of 1..4 entries naming labels of
+// the map, with (usually) one faulty entry at a random position, not necessarily the last.
+func critFault(r *Rng, m *W) string {
+	var kv []*W
+	var labels []*W
+	for i := 0; i+1 < len(m.Kids); i += 2 {
+		if k := m.Kids[i]; k.Maj == 0 && k.Val == 2 {
+			continue
+		}
+		kv = append(kv, m.Kids[i], m.Kids[i+1])
+		if m.Kids[i].Maj == 0 || m.Kids[i].Maj == 1 || m.Kids[i].Maj == 3 {
+			labels = append(labels, m.Kids[i])
+		}
+	}
+	if len(labels) == 0 {
+		kv = append(kv, wInt(4, -1), wBstr([]byte("k"), -1))
+		labels = append(labels, kv[len(kv)-2])
+	}
+	n := 1 + r.Intn(4)
+	var ents []*W
+	for j := 0; j < n; j++ {
+		ents = append(ents, labels[r.Intn(len(labels))].Clone())
+	}
+	desc := "crit-valid"
+	if r.Chance(4, 5) {
+		bad := pick(r, []*W{wInt(9999, -1), wInt(-9999, -1), wTstr("absent", -1), wBstr([]byte{4}, -1), wFloat64(4), wArr(-1, wInt(4, -1)), wNull(), wBool(true), wMap(-1)})
+		if l := labels[0]; r.Chance(1, 4) && (l.Maj == 0 || l.Maj == 1) {
+			// the decimal text of a present integer label
+			v := int64(l.Val)
+			if l.Maj == 1 {
+				v = -1 - v
+			}
+			bad = wTstr(fmt.Sprint(v), -1)
+		}
+		pos := r.Intn(len(ents) + 1)
+		ents = append(ents[:pos], append([]*W{bad}, ents[pos:]...)...)
+		desc = fmt.Sprintf("crit-fault-at-%d-of-%d", pos, len(ents))
+	}
+	kv = append(kv, wInt(2, -1), wArr(-1, ents...))
+	m.Kids = kv
+	m.Width = pickW(uint64(len(kv)/2), -1)
+	return desc
+}
+
+func mutateTreeShallow(r *Rng, root **W) string {
 	nodes := (*root).Nodes()
 	p := nodes[r.Intn(len(nodes))]
 	// Nodes() returns the slot of a copy of the root pointer for index 0: handle root specially
